@@ -11,8 +11,8 @@ oracle: the sentences of C12 with explicit slack, evaluated on the implementatio
         (never calls the model): TestRequest at the first tick at or after a + h (so by a + h + delta) after the last arrival a; a TestRequest
         unanswered for 2h (and no frame for 2h) is dropped at the next tick; a silent peer is
         disconnected by a + 3h + 2*delta; a watchdog disconnect needs a TestRequest that stayed unanswered
-        for more than 2h - 1 s (liveness by echo) and no valid frame within the last h s (liveness by
-        traffic - judged separately); echo of inbound TestRequests; at most one outstanding; wrong id =>
+        for more than 2h - 1 s (liveness by echo) and no valid frame within the last 2h s (liveness by
+        traffic - judged separately; was known finding C12-traffic-does-not-answer-testrequest until fix e3d9663); echo of inbound TestRequests; at most one outstanding; wrong id =>
         Logout + disconnect; missing id ignored.
 """
 from __future__ import annotations
@@ -375,11 +375,11 @@ def judge(spec, line):
                 elif t - outstanding[1] <= 2 * H - 1000:
                     yield ("C12-disconnect-before-deadline", "the watchdog disconnected although the TestRequest was sent "
                            f"only {t - outstanding[1]} ms ago (<= 2h - 1 s)", {"step": k})
-                # liveness by traffic (judged separately): a valid frame within the last interval
-                if outstanding is not None and t - last_arrival <= H:
+                # liveness by traffic (judged separately): a valid frame within the last two intervals
+                if t - last_arrival <= 2 * H:
                     yield ("C12-traffic-does-not-answer-testrequest", "the watchdog disconnected a peer whose last valid "
-                           f"frame arrived {t - last_arrival} ms ago (<= one interval): inbound traffic refreshes "
-                           "_message_last_time but only the echo clears _test_req_id", {"step": k, "t": t - t0})
+                           f"frame arrived {t - last_arrival} ms ago (<= 2h): inbound traffic must count as a sign of "
+                           "life even when a TestRequest stays unanswered (fix e3d9663)", {"step": k, "t": t - t0})
             else:
                 # sentence 2: a TestRequest still unanswered 2h after it was sent => disconnected at that tick at the
                 # latest (with sentence 1: a silent peer is disconnected by a + 3h + 2 delta, checked as well)
